@@ -1,6 +1,8 @@
 import AFModel.Freeze
 import AFModel.FreezeTree
 import AFProofs.Lemmas.FreezeTree
+import AFModel.RecCache
+import AFProofs.Lemmas.RecCache
 
 /-!
 # C13 — model answers depend only on the current composition
@@ -511,5 +513,56 @@ example : (srun unitOps ⟨[TState.init wtree]⟩
 example : wtree.at ["g"] = some (.model "P2" ["a", "b"] [("a", .prior 1), ("b", .prior 3)]) ∧
     (Node.model "P2" ["a", "b"] [("a", Node.prior (V := Nat) 1), ("b", .prior 3)]).isObj = true :=
   ⟨by simp [wtree, at_cons, at_nil, Node.attrs, lookupAttr], rfl⟩
+
+end AF.C13
+
+/-!
+# The process-wide recursion cache (`AFModel/RecCache.lean`)
+
+`DynamicRecursionCache` is shared by every walk of every model in the process. Whatever the wrapped
+function does on the item — recurse into any parts in any order, meet cycles, raise at any depth — the
+cache holds after the call exactly what it held before it: no entry of a finished call survives, so no
+later call (on the same object, or on another object that received the same `id()`) is answered with
+the placeholder of a call that is over.
+-/
+
+namespace AF.C13
+open AF AF.RC
+
+/-- **A call leaves the recursion cache as it found it**, raising or not. -/
+theorem recursion_cache_restored (s : RState) (c : RCall) : (rcall s c).1.cache = s.cache :=
+  rcall_cache s c
+
+/-- after any sequence of top-level calls (failing or not) the cache is empty again -/
+theorem recursion_cache_empty_after_calls (cs : List RCall) (tr : List Nat) :
+    (rcalls ⟨[], tr⟩ cs).1.cache = [] :=
+  rcalls_cache cs ⟨[], tr⟩
+
+/-- a placeholder is returned only for an item whose call is in progress -/
+theorem promise_only_in_progress (s : RState) (id : Nat) (raises : Bool) (children : List RCall) :
+    (rcall s (.node id raises children)).2 = .promise ↔ id ∈ s.cache := by
+  unfold rcall
+  by_cases h : id ∈ s.cache
+  · rw [if_pos (by simpa using h)]; simp [h]
+  · rw [if_neg (by simpa using h)]
+    simp only [h, iff_false]
+    split
+    · simp
+    · split <;> simp
+
+/-- **No poisoned entry**: whatever calls came earlier in the process — including failing ones on the
+same id — a top-level call is never answered with a placeholder. -/
+theorem no_poisoned_entry (cs : List RCall) (id : Nat) (raises : Bool) (children : List RCall) :
+    (rcall (rcalls ⟨[], []⟩ cs).1 (.node id raises children)).2 ≠ .promise := by
+  intro h
+  have := (promise_only_in_progress _ id raises children).mp h
+  rw [recursion_cache_empty_after_calls] at this
+  cases this
+
+/-- non-vacuity: a walk that meets a cycle (inner item 1 = outer item 1), then fails at depth 2; the
+same object is then walked again without a failure -/
+example : (rcalls ⟨[], []⟩ [.node 1 false [.node 2 false [.node 1 false []], .node 3 false [.node 4 true [], .node 5 false []]],
+                              .node 1 false [.node 2 false []]]) =
+    (⟨[], [1, 2, 3, 4, 1, 2]⟩, [.raised, .ok]) := by decide
 
 end AF.C13
